@@ -678,7 +678,7 @@ void h_addValue(void) {
   struct JsonVariantConst src;
   src.data_ = &g_slots[2]; src.resources_ = &g_rm;
   snapshot();
-  _Bool ok = ArrayData__addValue_JsonVariantConst_r__JsonVariantConst_r_ResourceManager_p(&a, &src, &g_rm);
+  _Bool ok = ArrayData__addValue_constJsonVariantConst_r__JsonVariantConst_r_ResourceManager_p(&a, &src, &g_rm);
   const unsigned e = NS - 1;
   COVER(g_alloc_fail_seen); COVER(!g_alloc_fail_seen && !g_set_ok); COVER(ok && empty); COVER(ok && !empty);
   CHECK(g_alloc_calls == 1, "addValue asks for exactly one slot");
@@ -1230,7 +1230,7 @@ void h_vset_other(void) {
   VD v0 = g_v;
   unsigned char t = g_v.type_;
   _Bool owned = t == VT_RAW || t == VT_OWNED, ext = t == VT_UINT64 || t == VT_INT64 || t == VT_DOUBLE, coll = t == VT_OBJECT || t == VT_ARRAY;
-  struct SerializedValue_char_p sv;
+  struct SerializedValue_constchar_p sv;
   sv.data_ = g_text; sv.size_ = in_u8() % 4;
   void *r = 0;
   switch (kind) {
@@ -1241,8 +1241,8 @@ void h_vset_other(void) {
     case 4: VariantData__setRawString(&g_v, g_saved); break;
     case 5: VariantData__setOwnedString(&g_v, g_saved); break;
     case 6: VariantData__setLinkedString(&g_v, g_text); break;
-    case 7: VariantData__setRawString_char_p__SerializedValue_char_p_ResourceManager_p(&g_v, sv, &g_rm); break;
-    default: VariantData__setRawString_char_p__VariantData_p_SerializedValue_char_p_ResourceManager_p(&g_v, sv, &g_rm); break;
+    case 7: VariantData__setRawString_constchar_p__SerializedValue_constchar_p_ResourceManager_p(&g_v, sv, &g_rm); break;
+    default: VariantData__setRawString_constchar_p__VariantData_p_SerializedValue_constchar_p_ResourceManager_p(&g_v, sv, &g_rm); break;
   }
   COVER(kind == 0); COVER(kind == 1); COVER(kind == 2 && owned); COVER(kind == 3 && coll); COVER(kind == 4); COVER(kind == 5); COVER(kind == 6);
   COVER(kind == 7 && g_save_ok); COVER(kind == 7 && !g_save_ok); COVER(kind == 8 && ext && !g_save_ok);
